@@ -47,6 +47,7 @@ theorem cut_ever (g : Ghost) (ws : List FW) (k : Nat) : (g.cut ws k).ever = g.ev
 theorem gstep_everNe {c : Cfg} {σ : RunSt} {g : Ghost} (h : EverNe g) (op : Op) : EverNe (gstep c σ g op) := by
   cases op with
   | mempool _ => exact h
+  | mempoolDrain _ => exact h
   | produce => simp only [gstep]; split <;> exact h
   | produceFail => simp only [gstep]; split <;> exact h
   | restart => intro b hb; rw [show (gstep c σ g .restart).ever = g.ever from cut_ever _ _ _] at hb; exact h b hb
